@@ -2,7 +2,8 @@ SPEC = dict(
     claimed=True,
     title='Hotter never means slower',
     props_file='Props/C07.v', props_mod='Props.C07',
-    proof_files=['Model/Curves.v', 'Proofs/CurveFloat.v', 'Proofs/CurveFn.v', 'Proofs/CurveMono.v', 'Proofs/CurveSteps.v',
+    props_extra=[('Props/C07Steps.v', 'Props.C07Steps')],
+    proof_files=['Proofs/StepsFloat.v', 'Proofs/StepsSeg.v', 'Proofs/StepsMono.v', 'Model/Curves.v', 'Proofs/CurveFloat.v', 'Proofs/CurveFn.v', 'Proofs/CurveMono.v', 'Proofs/CurveSteps.v',
                  'Proofs/CurveLin.v', 'Proofs/CurveLinMono.v',
                  'Drv/CurvesMono.v', 'Drv/CurvesCtrl.v'],
     tie_vo=['Proofs/LeafTie.vo', 'Proofs/ConstsTie_basic.vo', 'Proofs/ConstsTie_clamp.vo'],
@@ -23,11 +24,10 @@ SPEC = dict(
                  'request/written are exercised with the direct algorithm without rate limit (the property statement)'],
     trusted_base=['FloatAxioms + classical reals through Flocq where Print Assumptions lists them',
                   'hand-written models coq/Model/Curves.v, Model/Util.v (FindClosest/interpolate), Model/Controller.v (rescale_c, clamp_target); agreement observed on the generated cases'],
-    partial='C07_steps_partial: only the single-step (constant) case is proved; monotonicity of steps curves with INTEGER non-decreasing speeds (C07_steps_full_integer) is stated but not proved and rests on the dense differential sweeps; '
-            'for fractional speeds the statement is refuted (C07_steps_fractional_refuted, D19). C07_tree is proved for leaves satisfying leaf_mono, which is proved for min/max leaves (C07_lin_minmax_leaf).',
+    partial='C07_steps_integer_full is now proved (Props/C07Steps.v: any non-empty step list with integer non-decreasing speeds in 0..255 is monotone, total and within 0..255 for ALL float temperatures, and is a leaf_mono leaf for C07_tree). For fractional speeds the statement is refuted (C07_steps_fractional_refuted, D19, recorded finding).',
     finding_codes={2: 'D19'},
     finding_text={'D19': 'steps curve with a non-integer speed dips by one just below a breakpoint (interpolated values are re-rounded to float32, exact step values are not; util/math.go:115)'},
     level_text='Machine-checked: min/max linear curves are monotone, total and within 0..255 for ALL float64 temperatures; sum/max/min/average preserve the pointwise order for any member count; trees of any depth over monotone leaves are monotone (structural induction); the request is monotone in the target for all fan limits (exhaustive rescale lemma) and the written value is monotone in the request for every non-decreasing PWM map (nearest specification of FindClosest). Refuted with a witness replayed on the real curve every run: steps with fractional speeds (D19). Every run sweeps real curves on the 1 m-degree grid and adjacent floats around breakpoints and the real controller for v = 0..255.',
-    level_note='trusted: Coq kernel + FloatAxioms/Flocq reals; models tied by differential runs; integer-steps monotonicity observed, not proved',
+    level_note='trusted: Coq kernel + FloatAxioms/Flocq reals; models tied by differential runs; integer-steps monotonicity proved in Props/C07Steps.v',
     design_ref='DESIGN.md section 5 C07',
 )
